@@ -29,7 +29,8 @@ COMPONENTS = {"real": ["ECAgent.Batching.grid_search", "_run_model_for_search", 
               "stub": ["multiprocessing.Pool -> simkit.simpool.SimPool", "models and score function are harness workloads"]}
 PROBES = ["mode_0", "mode_1", "mode_2", "mode_3", "mode_4", "mode_5", "mode_6", "mode_7", "tie_for_best",
           "negative_only", "single_combination", "beyond_maxsize", "optimum_first", "optimum_middle", "optimum_last",
-          "parallel_reordered", "float_scores", "numpy_integer_scores", "parameter_named_like_a_batching_argument", "model_with_own_timestep_attribute", "one_shot_iterable_as_a_later_parameter"]
+          "parallel_reordered", "float_scores", "numpy_integer_scores", "parameter_named_like_a_batching_argument", "model_with_own_timestep_attribute", "one_shot_iterable_as_a_later_parameter",
+          "parameterlist_searched_replaced_searched_again"]
 TECHNIQUE = "deterministic simulation: serial vs simulated-parallel schedules of the same search, exact Fraction recomputation of every aggregate and of the best"
 LEVEL_TEXT = ("Seeded search over grids, modes, score tables and simulated pool schedules; every aggregate and the returned best "
               "are compared with an exact rational recomputation and the serial and simulated-parallel outcomes must be "
@@ -109,7 +110,8 @@ def generate(rng, tier):
     elif r < 0.6:
         scores = [list(scores[0]) for _ in range(size)]  # everything tied
     max_ts = rng.choice([None, None, rng.randint(0, 5)])
-    return {"nested_batches": rng.random() < 0.08, "shadow_timestep": shadow, "numpy_scores": style in ("small", "neg", "mid") and rng.random() < 0.3, "sibling": rng.random() < 0.15, "grid": grid, "via": rng.choice(["dict", "plist"]), "reps": reps, "mode": mode, "scores": scores,
+    reuse = {"first": rng.choice(["list", "iter", "gen", "range"]), "second": rng.sample([2, 3, 4, 7, 8], 2)} if rng.random() < 0.08 else None
+    return {"reuse": reuse, "nested_batches": rng.random() < 0.08, "shadow_timestep": shadow, "numpy_scores": style in ("small", "neg", "mid") and rng.random() < 0.3, "sibling": rng.random() < 0.15, "grid": grid, "via": rng.choice(["dict", "plist"]), "reps": reps, "mode": mode, "scores": scores,
             "processes": rng.choice([2, 2, 3, 4, 8, 16, rng.randint(2, 16)]), "max_ts": max_ts,
             "base_stop": rng.randint(0, 4), "spread": rng.randint(1, 3), "pool": gen_pool(rng, size)}
 
@@ -241,7 +243,30 @@ def check_outcome(ctx, sc, combos, sigs, table, val, ledger, label):
     return bi, exact
 
 
+def reuse_after_replacing(ctx, sc):
+    """Coarse-to-fine refinement with ONE ParameterList: searched, one parameter replaced under its own name (remove + add),
+    searched again - the second search is about the parameters as they are declared NOW."""
+    how = sc["reuse"]
+    first = {"list": [0, 1], "iter": iter([0, 1]), "gen": (v for v in [0, 1]), "range": range(2)}[how["first"]]
+    pl = B.ParameterList({"a": first, "b": [5]})
+    second = list(how["second"])
+    table = {W.sig_of({"a": a_, "b": 5}): [int(10 * a_ + 3)] for a_ in [0, 1] + second}
+    for round_, vals in (("first", [0, 1]), ("second", second)):
+        W.reset({"base_stop": 1, "spread": 1, "scores": table, "collectors_defined": [["col0", 1]]})
+        best, results = ctx.expect_ok("grid_search-" + round_, B.grid_search, W.SearchModel, pl, W.score_fn,
+                                      mode=B.ScoreMode.MIN, processes=1)
+        got = [r_.get("a") for r_ in results]
+        ctx.check(got == vals and best.get("a") == min(vals), "evaluations",
+                  f"{round_} search on a reused ParameterList evaluated a={got} (best a={best.get('a')}), declared now: a={vals}")
+        if round_ == "first":
+            ctx.expect_ok("remove_parameter", pl.remove_parameter, "a")
+            ctx.expect_ok("add_parameter", pl.add_parameter, "a", list(second))
+    ctx.probe("parameterlist_searched_replaced_searched_again")
+
+
 def execute(sc, ctx):
+    if sc.get("reuse"):
+        reuse_after_replacing(ctx, sc)
     size = 1
     for _, s in sc["grid"]:
         size *= len(as_list(s))
